@@ -9,7 +9,7 @@ META = dict(
          "every send to a failing destination), followed by failure-free passes: in each pass the datagrams handed to the double must be, per destination, exactly the "
          "pending packets in queue order if the destination is not failing and nothing otherwise; hence every packet is sent exactly once, in order, and no destination "
          "blocks another. A second family fails individual send calls (every mask over the sends of two passes) and checks exactly-once, per-destination order and "
-         "that destinations without a failed send are not held back. A third family drives serviceTxPktsOnce with every fail/succeed pattern per call and with every subset of destinations failing per call, and requires exactly-once delivery in per-destination queue order.",
+         "that destinations without a failed send are not held back. A third family drives serviceTxPktsOnce with every fail/succeed pattern per call and with every subset of destinations failing per call, and requires exactly-once delivery in per-destination queue order. Zero-length datagrams are mixed into short queues under all three modes.",
     note="The UDP socket is a double at the handler interface (send(data, ha)); transient errnos are the nine the stack itself treats as transient, all exercised. "
          "Non-transient errors (re-raised by the stack) and the receive side are outside the statement.",
 )
@@ -23,6 +23,7 @@ MAXN = 5 if QUICK else 6
 PASSES = 3 if QUICK else 4
 ONCE_CALLS = 5 if QUICK else 7
 ATT_MAXN = 4 if QUICK else 5       # per-send failure family: queue length bound
+EMPTY_MAXN = 3 if QUICK else 4     # zero-length datagram family: queue length bound
 FULLN = 3 if QUICK else 5          # all assignments up to this length, beyond it one per renaming class
 DESTS = "ABC"
 HA = {"A": ("10.0.0.1", 7001), "B": ("10.0.0.2", 7002), "C": ("10.0.0.3", 7003)}
@@ -42,6 +43,8 @@ class Handler:
         self.failed_dests = set()  # destinations that had a failed send since last reset
         self.sent = []             # (label, dest name) datagrams accepted
         self.attempts = []         # every send call
+        self.labels = {}           # id(packet.packed) -> label (zero-length datagrams carry no text)
+        self.keep = []             # keeps packets alive so ids are not reused
 
     def reopen(self):
         self.opened = True
@@ -62,7 +65,7 @@ class Handler:
             e = getattr(errno, self.failing.get(d) or TRANSIENT[i % len(TRANSIENT)])
             self.failed_dests.add(d)
             raise socket.error(e, os.strerror(e))
-        self.sent.append((bytes(data).decode("ascii"), d))
+        self.sent.append((self.labels.get(id(data)) or bytes(data).decode("ascii"), d))
         return len(data)
 
 
@@ -74,6 +77,15 @@ def make_stack(kind):
     else:
         st = stacking.GramStack(handler=h, ha=("127.0.0.1", 9000), name="verif")
     return st, h
+
+
+def put(st, h, lab, d, empty):
+    """Queue one packet on the stack; `empty` makes it a zero-length datagram (packeting.Packet() default: a poke / keep-alive)."""
+    from ioflo.aio.proto import packeting
+    pkt = packeting.Packet(stack=st, packed=b"" if empty else lab.encode("ascii"))
+    h.labels[id(pkt.packed)] = lab
+    h.keep.append(pkt)
+    st.transmit(pkt, HA[d])
 
 
 def labels(assign):
@@ -120,15 +132,15 @@ def errname(ipass, d):
     return TRANSIENT[(ipass * 3 + DESTS.index(d)) % len(TRANSIENT)]
 
 
-def run_passes(kind, queue, late_from, pattern, errfn=errname):
+def run_passes(kind, queue, late_from, pattern, errfn=errname, empties=()):
     """One execution. Returns (violation or None, per-pass log)."""
     from ioflo.aio.proto import packeting
     st, h = make_stack(kind)
     items = labels(queue)
 
     def enqueue(lo, hi):
-        for lab, d in items[lo:hi]:
-            st.transmit(packeting.Packet(stack=st, packed=lab.encode("ascii")), HA[d])
+        for i, (lab, d) in enumerate(items[lo:hi], lo):
+            put(st, h, lab, d, i in empties)
 
     enqueue(0, late_from)
     pending = list(items[:late_from])          # reference: packets not yet delivered, queue order
@@ -176,15 +188,15 @@ def run_passes(kind, queue, late_from, pattern, errfn=errname):
     return (None, None, log)
 
 
-def run_attempts(kind, queue, masks):
+def run_attempts(kind, queue, masks, empties=()):
     """Per-send failure family: in pass p the i-th send call fails iff masks[p][i].  Oracle is stated on the
     observations only: exactly once, per-destination order over the whole run, and a packet whose destination had
     no failed send in a pass is delivered in that pass."""
     from ioflo.aio.proto import packeting
     st, h = make_stack(kind)
     items = labels(queue)
-    for lab, d in items:
-        st.transmit(packeting.Packet(stack=st, packed=lab.encode("ascii")), HA[d])
+    for i, (lab, d) in enumerate(items):
+        put(st, h, lab, d, i in empties)
     pending = list(items)
     delivered = {d: [] for d in DESTS}
     log = []
@@ -224,13 +236,13 @@ def run_attempts(kind, queue, masks):
     return (None, None, log)
 
 
-def run_once(kind, queue, bits):
+def run_once(kind, queue, bits, empties=()):
     """serviceTxPktsOnce family: call i fails iff bits[i]. Oracle: exactly once, per-destination order."""
     from ioflo.aio.proto import packeting
     st, h = make_stack(kind)
     items = labels(queue)
-    for lab, d in items:
-        st.transmit(packeting.Packet(stack=st, packed=lab.encode("ascii")), HA[d])
+    for i, (lab, d) in enumerate(items):
+        put(st, h, lab, d, i in empties)
     sent = []
     calls = 0
     limit = len(bits) + 3 * len(items) + 3
@@ -262,8 +274,8 @@ def run_once(kind, queue, bits):
     return (None, None, sent)
 
 
-def qstr(queue, late_from=None):
-    labs = [l for l, _ in labels(queue)]
+def qstr(queue, late_from=None, empties=()):
+    labs = [l + ("(0 bytes)" if i in empties else "") for i, (l, _) in enumerate(labels(queue))]
     if late_from is not None and late_from < len(labs):
         labs.insert(late_from, "/then-after-pass-1:")
     return " ".join(labs)
@@ -299,6 +311,30 @@ def work(arg):
                 if nfail >= 2 and late_from < n and v is None and len(p.samples) < 2:
                     p.sample(dict(stack=kind, queue=qstr(queue, late_from), failing_per_pass=[list(s) for s in pat],
                                   passes=[(x["failing"], x["sent"]) for x in log]))
+        # zero-length datagrams mixed with ordinary ones, all three service modes (two enumerated passes)
+        if n <= EMPTY_MAXN:
+            pats2 = patterns(used, 2)
+            masks1 = [m for k in range(0, n + 1) for m in itertools.product((0, 1), repeat=k) if not k or m[-1]]
+            for r in range(1, n + 1):
+                for empties in itertools.combinations(range(n), r):
+                    runs = [("fail-per-pass", [list(x) for x in pat], run_passes, (kind, queue, n, pat, errname, empties)) for pat in pats2]
+                    runs += [("fail-per-send", [list(m1), []], run_attempts, (kind, queue, (m1, ()), empties)) for m1 in masks1]
+                    runs += [("fail-per-call", list(b), run_once, (kind, queue, b, empties)) for b in masks1]
+                    for tag, desc, fn, args in runs:
+                        p.evaluations += 1
+                        p.nontrivial(("empty", queue, empties, tag, repr(desc)))
+                        v, what, log = fn(*args)
+                        mode = "serviceTxPktsOnce" if fn is run_once else "serviceTxPkts"
+                        if v is None:
+                            p.outcome("zero-length-ok:" + mode)
+                        else:
+                            p.outcome("zero-length-violation:" + v)
+                            ex = "%s queue=%s %s=%s" % (kind, qstr(queue, None, empties), tag, desc)
+                            p.violation(mode + "|zero-length|" + v, ex, what,
+                                        dict(stack=kind, queue=labels(queue), zero_length_positions=list(empties), pattern_kind=tag, pattern=desc,
+                                             observed=log, divergence=what,
+                                             how="as the other families, but the packets at zero_length_positions are packeting.Packet(stack) with empty .packed; "
+                                                 "the double's send returns len(data) == 0 for them, like socket.sendto"))
         # per-send failure family (two passes, every fail/succeed mask over the first n sends of each)
         if n <= ATT_MAXN:
             allmasks = [m for k in range(0, n + 1) for m in itertools.product((0, 1), repeat=k) if not k or m[-1]]
@@ -408,6 +444,7 @@ def run():
         "order is only required per destination; interleaving between destinations within a pass is free",
         "per-send failure family: a destination counts as failing in a pass iff at least one send to it failed in that pass; only observations are constrained "
         "(exactly once, per-destination order over the whole run, packets of destinations without a failed send go out in that pass)",
+        "a zero-length datagram is an ordinary packet: the double accepts it and returns 0 bytes sent, as socket.sendto does",
         "serviceTxPktsOnce family: only exactly-once delivery and per-destination order are required (one call handles one packet, so 'not blocked' is not defined per call)",
         "queues longer than %d packets are enumerated up to renaming of the three destinations (addresses are opaque dictionary keys to the stack)" % FULLN,
         "after the enumerated passes every send succeeds; delivery must then complete within queue-length+3 further passes",
@@ -415,8 +452,8 @@ def run():
     return ck.finish(
         rule="all destination assignments of 1..%d packets over {A,B,C} (beyond length %d: one per renaming of destinations) x every split 'first k packets queued up front, rest after pass 1' x every choice of failing "
              "subset of the used destinations for each of the first %d passes (UdpStack; GramStack up to 4 packets); plus (queues up to %d packets) every per-send fail/succeed mask over two passes; plus serviceTxPktsOnce with every subset of destinations failing in each of the first 2-3 (thorough 3-4) calls and with every fail/succeed "
-             "pattern over the first min(%d, n+2) calls; plus each of the 9 transient errnos on three small queues; non-trivial = at least one failure injected"
-             % (MAXN, FULLN, PASSES, ATT_MAXN, ONCE_CALLS),
+             "pattern over the first min(%d, n+2) calls; plus queues up to %d packets with every non-empty subset of them zero-length under all three modes; plus each of the 9 transient errnos on three small queues; non-trivial = at least one failure injected"
+             % (MAXN, FULLN, PASSES, ATT_MAXN, ONCE_CALLS, EMPTY_MAXN),
         exhaustive=True)
 
 
